@@ -535,6 +535,11 @@ class SFTPFile(BufferedFile):
             return 0
 
     def _start_prefetch(self, chunks, max_concurrent_requests=None):
+        if len(chunks) == 0:
+            # nothing to request: leave the prefetch state alone. Clearing
+            # _prefetch_done here would make readers wait for responses that
+            # nobody asked for.
+            return
         self._prefetching = True
         self._prefetch_done = False
 
@@ -565,22 +570,31 @@ class SFTPFile(BufferedFile):
                 self._prefetch_extents[num] = (offset, length)
 
     def _async_response(self, t, msg, num):
+        data = None
         if t == CMD_STATUS:
-            # save exception and re-raise it on next file operation
             try:
                 self.sftp._convert_status(msg)
+            except EOFError:
+                # this request lay beyond the end of the file: there is
+                # nothing to buffer. A reader that gets that far asks the
+                # server itself, so EOF is never blamed on another offset.
+                pass
             except Exception as e:
+                # save exception and re-raise it on next file operation
                 self._saved_exception = e
-            return
-        if t != CMD_DATA:
+        elif t != CMD_DATA:
             raise SFTPError("Expected data")
-        data = msg.get_string()
+        else:
+            data = msg.get_string()
         while True:
             with self._prefetch_lock:
                 # spin if in race with _prefetch_thread
                 if num in self._prefetch_extents:
                     offset, length = self._prefetch_extents[num]
-                    self._prefetch_data[offset] = data
+                    if data is not None:
+                        self._prefetch_data[offset] = data
+                    # answered requests (data or status) are no longer
+                    # outstanding
                     del self._prefetch_extents[num]
                     if len(self._prefetch_extents) == 0:
                         self._prefetch_done = True
